@@ -469,9 +469,10 @@ class SingleRandomPart(SingleSweepPart):
     must_complete = False
 
     def __init__(self, prop, engine, name, weight=1.0, errnos=("EIO", "ENOSPC", "EACCES"), second=False,
-                 kinds="core", mp=False):
+                 kinds="core", mp=False, atom=False):
         SingleSweepPart.__init__(self, prop, engine, name, errnos=errnos, weight=weight, second=second, kinds=kinds)
         self.mp = mp
+        self.atom = atom
         self.rule = self.rule.replace("sweep:", "random:").replace(
             "for every (start state, call) of the menu", "for seeded random (start-state history, call, configuration, "
             "st_blksize, write-through) triples")
@@ -490,6 +491,12 @@ class SingleRandomPart(SingleSweepPart):
         if self.engine == "FAULT":
             prog["fault"] = {"index": rng.randrange(0, 40), "errno": rng.choice(list(self.errnos)),
                              "persistent": rng.choice([False, True, "noremove"]), "kinds": self.kinds}
+            if getattr(self, "atom", False):
+                prog["atom"] = True
+                # a failing rename makes shutil.move copy into the destination (its documented fall-back): C09
+                # quantifies over the points of fault-free calls, so that path is not judged here
+                prog["fault"]["exclude"] = ["rename"]
+                prog["knobs"]["write_through"] = rng.random() < 0.6
         elif self.engine == "CRASH":
             prog["crash"] = {"index": rng.randrange(0, 40)}
             if self.second and rng.random() < 0.5:
